@@ -102,7 +102,7 @@ class Runner:
                     r = json.loads(line)
                 except Exception:
                     r = {"class": "garbled", "raw": line.decode("utf8", "replace"), "out": "", "err": ""}
-                r["id"] = chunk[got]["id"]
+                r["id"] = chunk[got].get("id")
                 results.append(r)
                 got += 1
                 if r.get("class") in ("panic", "timeout", "step_limit"):
@@ -117,7 +117,7 @@ class Runner:
                     # died without reporting: the case in flight is cases[i]
                     if i < n:
                         sig = -rc if rc is not None and rc < 0 else rc
-                        results.append({"id": cases[i]["id"], "class": "signal", "code": sig, "out": "", "err": "",
+                        results.append({"id": cases[i].get("id"), "class": "signal", "code": sig, "out": "", "err": "",
                                         "signal": signal.Signals(sig).name if isinstance(sig, int) and 0 < sig < 65 and rc < 0 else str(rc)})
                         i += 1
         return results
